@@ -207,8 +207,16 @@ def run(tier, repo):
             seq = Ev(F).fn_seq(f["path"])
         except Opaque:
             continue
+        widths = {}
+        walk_steps(seq, lambda st, p: widths.__setitem__(st[1], st[2]) if st[0] == "u" else None)
+
         def chk(st, p, f=f):
             nonlocal nrep
+            if st[0] == "count":
+                n = st[2]
+                bounded = n[0] == "n" or (n[0] == "v" and widths.get(n[1], 99) <= 16)
+                rp.check(bounded, "ALLOC", "count/%s%s" % (f["path"].split("::")[-1], p), site(f), "element count of a counted repetition is not a constant or a wire integer of at most 16 bits (nom pre-allocates for it, capped at 64 KiB)",
+                         found=sym_str(n), why_ok="count is a wire integer of %s bits; nom caps the pre-allocation" % (widths.get(n[1]) if n[0] == "v" else "constant"))
             if st[0] in ("many0", "many1"):
                 nrep += 1
                 inner = st[2]
